@@ -5,6 +5,7 @@ import (
 	"fmt"
 	"strings"
 	"time"
+	"verif/internal/envwatch"
 
 	resourcetypes "github.com/projecteru2/core/resource/types"
 	"github.com/projecteru2/core/types"
@@ -281,7 +282,7 @@ func (w *World) AllWorkloads() []*types.Workload {
 	defer cancel()
 	ws, err := w.RawStore.ListWorkloads(ctx, "", "", "", 0, nil)
 	if err != nil {
-		w.T.Fatalf("list workloads: %v", err)
+		panic(envwatch.HarnessErr{What: "list workloads", Err: err})
 	}
 	return ws
 }
@@ -292,7 +293,7 @@ func (w *World) AllNodes() []*types.Node {
 	defer cancel()
 	ns, err := w.RawStore.GetNodesByPod(ctx, &types.NodeFilter{All: true})
 	if err != nil {
-		w.T.Fatalf("list nodes: %v", err)
+		panic(envwatch.HarnessErr{What: "list nodes", Err: err})
 	}
 	return ns
 }
